@@ -111,7 +111,8 @@ def defects(path):
         e = path.find(b'|', k)
         e = len(path) if e < 0 else e
         q = path[k + 1:e]
-        for repl in (b'-1', b'99', b'1x', b'4294967296', b'zz', b'', b"'zz'", b"'" + q, q + b"'", b"'a\\qb'", b"''", b"'\\''", b"'\\\\'"):
+        for repl in (b'-1', b'99', b'1x', b'4294967296', b'-4294967296', b'-4294967295', b'-9223372036854775808', b'-99999999999999999999',
+                     b'18446744073709551616', b'zz', b'', b"'zz'", b"'" + q, q + b"'", b"'a\\qb'", b"''", b"'\\''", b"'\\\\'"):
             out.add(path[:k + 1] + repl + path[e:])
         out.add(path[:k] + path[e:])                # qualifier removed
     # a qualifier on every unqualified step
